@@ -120,6 +120,17 @@ def rule_delegation(ctx, m, modules, floor=None):
                     ctx.check(not miss, 'R-FWD', mod.path, q, 'object settings to %s' % dotted(call[1]),
                               '%s carries the setting(s) %s as attributes, and %s takes parameter(s) of the same name, but the call does not pass them: the callee uses its '
                               'default instead of the object\'s value' % (f.cls, miss, target.qual), s.line)
+            # (1e) a keyword argument named like one wrapper parameter but fed from another one (k=p with k != p, both parameters of the wrapper)
+            # crosses two options; this also covers callees that take the options as **kwargs
+            allp = set(f.args + f.kwonly)
+            for s, call in calls_in(f.body):
+                if not any(k is not None and k in allp for k, _ in call[3]):
+                    continue
+                crossed = [(k, v[1]) for k, v in call[3] if k is not None and v[0] == 'var' and v[1] != k and v[1] in allp and k in allp]
+                n += 1
+                ctx.check(not crossed, 'R-FWD', mod.path, q, 'crossed keywords at %s' % dotted(call[1]),
+                          'the call passes %s: the option named %s receives the value the caller gave for %s' %
+                          (', '.join('%s=%s' % kv for kv in crossed), crossed[0][0] if crossed else '', crossed[0][1] if crossed else ''), s.line)
             deleg = list(_delegations(f))
             dids = {id(c) for _, c in deleg}
             # (1c) a function that receives its options as **kwargs passes a ** mapping (or an explicit selection of keywords) to every
@@ -130,7 +141,8 @@ def rule_delegation(ctx, m, modules, floor=None):
                     if r is None or r[1] is f or not r[1].kwarg:
                         continue
                     has_d = any(k is None for k, _ in call[3])
-                    has_kw = any(k is not None for k, _ in call[3])
+                    # an explicit selection of options (e.g. window=s.window, ...) counts; constant keywords (use_ndim=True) do not carry the caller's options
+                    has_kw = any(k is not None and v[0] not in ('bool', 'num', 'str', 'none') for k, v in call[3])
                     n += 1
                     ctx.check(has_d or has_kw, 'R-FWD', mod.path, q, 'options to %s' % dotted(call[1]),
                               '%s receives its options as **%s, but calls %s without any ** mapping or keyword: the callee runs with default settings '
